@@ -418,7 +418,22 @@ func (sdb *DbSqlite) initJwtKey() error {
 	return nil
 }
 
+// normalizePoints applies the conventions of the store to incoming points
+// before they are compared with each other and with the stored points: an
+// empty key means key "0".
+func normalizePoints(points data.Points) data.Points {
+	ret := make(data.Points, len(points))
+	for i, p := range points {
+		if p.Key == "" {
+			p.Key = "0"
+		}
+		ret[i] = p
+	}
+	return ret
+}
+
 func (sdb *DbSqlite) nodePoints(id string, points data.Points) error {
+	points = normalizePoints(points)
 	points.Collapse()
 
 	sdb.writeLock.Lock()
@@ -559,6 +574,7 @@ NextPin:
 }
 
 func (sdb *DbSqlite) edgePoints(nodeID, parentID string, points data.Points) error {
+	points = normalizePoints(points)
 	points.Collapse()
 
 	if nodeID == parentID {
